@@ -406,12 +406,13 @@ def custom_flag_ok(S, flagterm):
     for a in d.assigns:
         if es(a.value) != 'true':
             return False
-        atoms = S.facts.atoms(a.ctx, S.fw)
+        # second-phase loops over collections filled in the field loops count as those loops (the push-site conditions are spliced in)
+        atoms = S.facts.atoms(S.facts.effective_ctx(a.ctx, S.fw), S.fw)
         la, lk = S.field_loop(atoms)
         if la is None or lk != 'variant':
             return False
         meth = [p for p in (S.attr_atom(x, la[1], 'method') for x in atoms) if p is not None]
-        extra = [x for x in atoms_after_loop(atoms, la[1]) if S.attr_atom(x, la[1], 'method') is None and x[0] != 'cfg']
+        extra = [x for x in atoms_after_loop(atoms, la[1]) if S.attr_atom(x, la[1], 'method') is None and x[0] not in ('cfg', 'via')]
         if meth != [True] or extra:
             return False
     return True
